@@ -102,6 +102,11 @@ pub fn check(case: &Case, st: &mut Stats) {
             return;
         }
     };
+    check_cell(&cell, case, st);
+}
+
+/// compare every view of `cell` with the lattice that `case` describes
+pub fn check_cell(cell: &Cell2, case: &Case, st: &mut Stats) {
     // what the cell actually holds (the JSON reader may be off by an ulp: not C14's concern)
     let lat = Lattice { a: cell.a(), b: cell.b(), theta: cell.angle() };
     if (lat.a - case.length).abs() > 1e-12 * case.length
@@ -180,6 +185,16 @@ pub fn check(case: &Case, st: &mut Stats) {
             }
         }
     }
+    // 3b. the images are handed out as an iterator: every way of consuming it walks the same set
+    let hcase = hash64(&[case.length.to_bits(), case.ratio.to_bits(), case.t[0].to_bits(), case.shells as u64]);
+    if hcase % 8 == 0 && case.shells <= 3 {
+        let mut r = crate::common::rng_for(hcase, 1414);
+        let mut calls = 0u64;
+        if let Some(e) = super::iterproto::check(|| cell.periodic_images(t2, case.shells, case.zero), &mut r, &mut calls) {
+            st.violation(viol("periodic_images:depends-on-how-the-iterator-is-consumed", case, json!({ "disagreement": e })));
+        }
+        st.add("image_iterator_calls_checked", calls);
+    }
     // 4. area
     let area = cell.area();
     if (area - lat.area()).abs() > 1e-12 * lat.area() {
@@ -206,13 +221,123 @@ pub fn check(case: &Case, st: &mut Stats) {
     st.sample(|| json!({"case": case, "to_cartesian": [got.0, got.1], "oracle": want, "images": imgs.len(), "area": area}));
 }
 
+/// A chain of cells evaluated one after the other on one thread, each sharing some of (a, b,
+/// angle, area) bit for bit with its predecessor while the rest differs, and returning to
+/// earlier lattices: the three views must describe the cell in hand, not one seen before.
+/// `in_place`: one Cell2 object taken through the chain by its own degrees of freedom
+/// (Monoclinic only; values inside the declared bounds); otherwise a fresh cell per link.
+#[derive(Clone, Debug, Serialize, Deserialize)]
+pub struct Chain {
+    pub base: Case,
+    pub in_place: bool,
+    pub links: Vec<[f64; 3]>,
+}
+
+pub fn gen_chain<R: Rng>(rng: &mut R) -> Chain {
+    let mut base = gen_case(rng);
+    let in_place = rng.gen_bool(0.5);
+    if in_place {
+        base.family = "Monoclinic".into();
+        base.length = base.length.max(0.2);
+        base.ratio = rng.gen_range(0.8, 4.0);
+        base.angle = PI / 2.;
+    }
+    let (l, r) = (base.length, base.ratio);
+    let t0 = if in_place { rng.gen_range(PI / 6., PI / 2.) } else { base.angle };
+    let t1 = if in_place { rng.gen_range(PI / 6., PI / 2.) } else { rng.gen_range(0.05, PI - 0.05) };
+    // halving and doubling are exact, so the shared quantities are shared to the last bit
+    let mut links = vec![
+        [l, r / 2., t0],
+        [l / 2., r, t0],      // same b and angle, other a
+        [l / 2., r / 2., t0], // same a and angle, other b
+        [l / 2., r / 2., t1], // same a and b, other angle
+        [l / 4., r, t1],      // same b and angle, other a
+        [l, r / 4., t1],      // same b, other a; same area as the first link
+        [l, r / 2., t0],      // an earlier lattice again
+        [l / 2., r, t1],
+        [l / 2., r, t0],
+    ];
+    // a random walk over the same small value sets
+    for _ in 0..rng.gen_range(0, 12) {
+        links.push([l / [1., 2., 4.][rng.gen_range(0, 3)], r / [1., 2., 4.][rng.gen_range(0, 3)], if rng.gen_bool(0.5) { t0 } else { t1 }]);
+    }
+    if in_place {
+        links.retain(|k| k[1] >= 0.1 && k[0] >= 0.01);
+    }
+    Chain { base, in_place, links }
+}
+
+pub fn check_chain(ch: &Chain, st: &mut Stats) {
+    let before = st.violations.len();
+    check_chain_inner(ch, st);
+    // a witness found inside a chain is only reproducible as the chain
+    for v in st.violations.iter_mut().skip(before) {
+        v.detail = json!({"cell_in_hand": v.case, "what": v.detail});
+        v.case = serde_json::to_value(ch).unwrap();
+    }
+}
+
+fn check_chain_inner(ch: &Chain, st: &mut Stats) {
+    use packing::traits::Basis;
+    let mut n = 0u64;
+    if ch.in_place {
+        let txt = format!(
+            "{{\"length\":{},\"ratio\":{},\"angle\":{},\"family\":\"Monoclinic\"}}",
+            serde_json::to_string(&ch.base.length).unwrap(),
+            serde_json::to_string(&ch.base.ratio).unwrap(),
+            serde_json::to_string(&ch.base.angle).unwrap()
+        );
+        let cell: Cell2 = match serde_json::from_str(&txt) {
+            Ok(c) => c,
+            Err(_) => return,
+        };
+        check_cell(&cell, &ch.base, st);
+        let mut dof = cell.get_degrees_of_freedom();
+        // which handle is which: by the value it holds (the three differ by construction)
+        let find = |dof: &Vec<packing::StandardBasis>, v: f64| dof.iter().position(|d| d.get_value().to_bits() == v.to_bits());
+        let (il, ir, ia) = match (find(&dof, ch.base.length), find(&dof, ch.base.ratio), find(&dof, ch.base.angle)) {
+            (Some(a), Some(b), Some(c)) if a != b && b != c && a != c => (a, b, c),
+            _ => {
+                st.count("in_place_chains_skipped(handles not identifiable)");
+                return;
+            }
+        };
+        for k in ch.links.iter() {
+            dof[il].set_value(k[0]);
+            dof[ir].set_value(k[1]);
+            dof[ia].set_value(k[2]);
+            let mut c = ch.base.clone();
+            c.length = k[0];
+            c.ratio = k[1];
+            c.angle = k[2];
+            check_cell(&cell, &c, st);
+            n += 1;
+        }
+    } else {
+        for k in ch.links.iter() {
+            let mut c = ch.base.clone();
+            c.length = k[0];
+            c.ratio = k[1];
+            c.angle = k[2];
+            check(&c, st);
+            n += 1;
+        }
+    }
+    st.add("cells_evaluated_in_chains", n);
+    st.count(if ch.in_place { "chains[one cell moved by its degrees of freedom]" } else { "chains[fresh cell per link]" });
+}
+
 pub fn run(ctx: &Ctx) {
-    ctx.set_rule("random cells deserialised from JSON (4 families; length 0.01-100 log/uniform/special, ratio 0.1-1, angle pi/6-pi/2 and the exact family values), random fractional points, random placements (rotations, reflections, identity), shells 0..6, zero in/excluded; each case compares to_cartesian/_point/_isometry, periodic_images (as a set, each once, linear part bit-identical), area, center and corners with A=(a,0), B=(b cos t, b sin t); non-trivial = non-rectangular cell or >= 2 shells; distinct by quantised (length, ratio, angle, shells, zero, family)");
+    ctx.set_rule("random cells deserialised from JSON (4 families; length 0.01-100 log/uniform/special, ratio 0.1-1, angle pi/6-pi/2 and the exact family values), random fractional points, random placements (rotations, reflections, identity), shells 0..6, zero in/excluded; each case compares to_cartesian/_point/_isometry, periodic_images (as a set, each once, linear part bit-identical), area, center and corners with A=(a,0), B=(b cos t, b sin t); non-trivial = non-rectangular cell or >= 2 shells; distinct by quantised (length, ratio, angle, shells, zero, family); plus chains of 9-21 cells evaluated back to back on one thread, each sharing a, b, the angle or the area bit for bit with its predecessor while the rest differs and returning to earlier lattices - as fresh cells, and as one Cell2 moved by its own degrees of freedom");
     let n = ctx.tier.pick(12_000u64, 1_500_000u64);
+    let nc = ctx.tier.pick(600u64, 60_000u64);
     par_shards(ctx, 14, 64, |_, rng, st| {
         for _ in 0..n {
             let c = gen_case(rng);
             check(&c, st);
+        }
+        for _ in 0..nc {
+            check_chain(&gen_chain(rng), st);
         }
     });
     ctx.set_min_nontrivial(1000);
@@ -220,7 +345,9 @@ pub fn run(ctx: &Ctx) {
 
 pub fn replay(ctx: &Ctx, case: &serde_json::Value) {
     let mut st = Stats::new();
-    if let Ok(c) = serde_json::from_value::<Case>(case.clone()) {
+    if let Ok(ch) = serde_json::from_value::<Chain>(case.clone()) {
+        check_chain(&ch, &mut st);
+    } else if let Ok(c) = serde_json::from_value::<Case>(case.clone()) {
         check(&c, &mut st);
     }
     ctx.merge(st);
